@@ -204,6 +204,12 @@ func newMaterial() (m *material, err error) {
 			return nil, err
 		}
 	}
+	// a certificate file that holds the ec certificate followed by its issuer
+	m.files["cert:ecchain"] = filepath.Join(m.dir, "ec-fullchain.crt")
+	fullchain := append(pem.EncodeToMemory(&pem.Block{Type: "CERTIFICATE", Bytes: m.certs["ec"].Raw}), pem.EncodeToMemory(&pem.Block{Type: "CERTIFICATE", Bytes: m.cas["ca"].Raw})...)
+	if err = os.WriteFile(m.files["cert:ecchain"], fullchain, 0o600); err != nil {
+		return nil, err
+	}
 	// a CA file that holds two authorities
 	m.files["ca:bundle"] = filepath.Join(m.dir, "bundle.pem")
 	bundle := append(pem.EncodeToMemory(&pem.Block{Type: "CERTIFICATE", Bytes: m.cas["ca"].Raw}), pem.EncodeToMemory(&pem.Block{Type: "CERTIFICATE", Bytes: m.cas["ca2"].Raw})...)
